@@ -62,8 +62,11 @@ VARIABLE s
 Scripts(cmd) == UNION {[1..n -> Alphabet(cmd)] : n \in 0..Depth}
 \* which write of the ECR the connection refuses, if any: 0 (none) .. MaxWFail
 MaxWFail == IF "SEQ_WFAIL" \in DOMAIN IOEnv THEN atoi(IOEnv.SEQ_WFAIL) ELSE 0
-Init == \E cmd \in Cmds : \E sc \in Scripts(cmd), tr \in BOOLEAN, wf \in 0..MaxWFail :
-          s = StartW(cmd, IF tr THEN Append(sc, TruncFrame) ELSE sc, Announced(cmd), wf)
+\* (the scripts are enumerated length by length: the union of all of them is too large a set to build at depth 5)
+Init == \E cmd \in Cmds : \E n \in 0..Depth, tr \in BOOLEAN, wf \in 0..MaxWFail :
+          IF n = 0 THEN s = StartW(cmd, IF tr THEN <<TruncFrame>> ELSE <<>>, Announced(cmd), wf)
+          ELSE \E pre \in [1..(n - 1) -> Alphabet(cmd)], last \in Alphabet(cmd) :
+                 s = StartW(cmd, IF tr THEN Append(Append(pre, last), TruncFrame) ELSE Append(pre, last), Announced(cmd), wf)
 Next == ~Terminal(s) /\ s' = Step(s)
 
 C05 == P_C05(s.log, s.cmd)
